@@ -27,7 +27,19 @@ def _f(A):
     return A
 
 
+_memo = {}
+
+
 def keccak256(data: bytes) -> bytes:
+    r = _memo.get(data)
+    if r is None:
+        r = _keccak256(data)
+        if len(_memo) < 200000:
+            _memo[bytes(data)] = r
+    return r
+
+
+def _keccak256(data: bytes) -> bytes:
     rate = 136
     p = bytearray(data)
     p.append(0x01)
